@@ -164,10 +164,13 @@ HISTORY = {
     "C15/J4-m2": ("missed", "ending event heartbeat-silent (a heartbeat the coordinator never answers) + ConsumerGroupConfig.Timeout as a case parameter"),
     "C16/J5-m1": ("missed", "the reference zstd decoder keeps the 128 MiB window limit of libzstd / zstd-jni"),
     "C16/J5-m2": ("missed", "NOT CAUGHT by C16's check (a data race without wrong bytes; its race-built unit reports races as infrastructure failures, thorough tier only); reported by C10's check (TestCodecPrograms)"),
-    "C07/J7-m2": ("missed", "NOT CAUGHT in the quick tier: needs another submitter (or the batch timer) between the release of the partition lock and the queueing of a long run of sealed batches"),
+    "C07/J7-m2": ("missed", "NOT CAUGHT (quick and thorough tier): needs another submitter (or the batch timer) between the release of the partition lock and the queueing of a long run of sealed batches, a window of microseconds without a schedule point"),
     "C18/J7-m2": ("missed", "brokers that do not list SaslHandshake in their ApiVersions answer (Transport entries)"),
     "C19/J8-m2": ("missed", "NOT CAUGHT by C19's check (its worlds do not change while they are queried); reported by C12's check (coordinator moves)"),
     "C09/J9-m2": ("missed", "reader stratum: the queue is full to the last slot when the partition reader has an error to report (broker state error-fetch, QueueCap)"),
+    "C06/J6-m1": ("missed", "NOT CAUGHT by C06's check (its produce requests are format 2); reported by C16's check (a second Close of a snappy writer puts it into the pool twice: round trip / interop after close-twice histories)"),
+    "C06/J6-m2": ("missed", "NOT CAUGHT by C06's check; reported by C04's check after the addition that the bytes Marshal returns stay intact across further Marshal calls"),
+    "C17/J6-m1": ("missed", "NOT CAUGHT by C17's check (no SASL in its scenarios); reported by C18's check (fault cut-raw-auth1: the raw answer of an authenticate round ends early)"),
     "C11/J10-m2": ("missed", "NOT CAUGHT: like C11/I1-m2 -- after an error code followed by surplus bytes the Conn stays open and misaligned, later operations still fail unless the surplus is crafted as the answer with the next correlation id"),
 }
 
